@@ -214,7 +214,7 @@ def validate_traces(segments, max_jobs=8):
     shutil.rmtree(d, ignore_errors=True)
     msg = None
     if not r["ok"]:
-        m = re.search(r'<<"REJECTED_AT", (\d+), (.*)>>', r.get("full", "") + r["out"])
+        m = re.search(r'<<"REJECTED_AT", (\d+), (.*)>>', "\n".join(r.get("notes", [])) + r.get("full", "") + r["out"])
         msg = m.group(0) if m else (r["violation"] or "rejected")
     return r["ok"], n, msg, r
 
